@@ -339,6 +339,8 @@ func c07acceptable(v *mChanView, up *client.ChannelUpdateMsg, pend []pendingAuto
 		return ""
 	}
 	// automatically accepted funding / settlement
+	why := ordinary
+	balWhy := "the awaited sub-allocation is added / removed, but the balances do not change by exactly each participant's balance in that channel"
 	for _, p := range pend {
 		switch p.Kind {
 		case "fund":
@@ -353,6 +355,7 @@ func c07acceptable(v *mChanView, up *client.ChannelUpdateMsg, pend []pendingAuto
 			if balancesMoved(cur, to, p.Bals, -1) {
 				return ""
 			}
+			why = balWhy
 		case "vfund":
 			rest, x, ok := mWithout(to.Locked, p.ID)
 			if _, _, before := mWithout(cur.Locked, p.ID); before || !ok || !mSameLocked(rest, cur.Locked) {
@@ -364,6 +367,7 @@ func c07acceptable(v *mChanView, up *client.ChannelUpdateMsg, pend []pendingAuto
 			if balancesMoved(cur, to, mapBals(p.Bals, p.IndexMap, n), -1) {
 				return ""
 			}
+			why = balWhy
 		case "vsettle":
 			rest, x, ok := mWithout(cur.Locked, p.ID)
 			if _, _, after := mWithout(to.Locked, p.ID); after || !ok || !mSameLocked(rest, to.Locked) {
@@ -375,6 +379,7 @@ func c07acceptable(v *mChanView, up *client.ChannelUpdateMsg, pend []pendingAuto
 			if balancesMoved(cur, to, mapBals(p.Bals, p.IndexMap, n), +1) {
 				return ""
 			}
+			why = balWhy
 		case "settle":
 			rest, _, ok := mWithout(cur.Locked, p.ID)
 			if _, _, after := mWithout(to.Locked, p.ID); after || !ok || !mSameLocked(rest, to.Locked) {
@@ -383,9 +388,10 @@ func c07acceptable(v *mChanView, up *client.ChannelUpdateMsg, pend []pendingAuto
 			if balancesMoved(cur, to, p.Bals, +1) {
 				return ""
 			}
+			why = balWhy
 		}
 	}
-	return ordinary
+	return why
 }
 
 // mapBals: what each of the n participants of a parent owes for / gets from a virtual channel
@@ -545,7 +551,8 @@ type msgsPlan struct {
 
 type gapFamily struct {
 	Point string
-	Names []string // sender M
+	Names []string    // sender M
+	Pairs [][2]string // quick: these ordered pairs instead of "the same message twice"
 }
 
 func msgsScenarios(mode msgsMode, plan msgsPlan) func(res *report.Result) []schedrun.Scenario {
@@ -564,8 +571,13 @@ func msgsScenarios(mode msgsMode, plan msgsPlan) func(res *report.Result) []sche
 		}
 		for _, g := range plan.GapQuick {
 			for _, n := range g.Names {
-				out = append(out, schedrun.Scenario{Name: g.Point + "/M/" + n, Mode: explore.Delay, Bound: 0, MaxSteps: 400000, Weight: 3},
-					schedrun.Scenario{Name: g.Point + "~gap/M/" + n + "+" + n, Mode: explore.Delay, Bound: 0, MaxSteps: 400000, Weight: 3})
+				out = append(out, schedrun.Scenario{Name: g.Point + "/M/" + n, Mode: explore.Delay, Bound: 0, MaxSteps: 400000, Weight: 3})
+				if g.Pairs == nil {
+					out = append(out, schedrun.Scenario{Name: g.Point + "~gap/M/" + n + "+" + n, Mode: explore.Delay, Bound: 0, MaxSteps: 400000, Weight: 3})
+				}
+			}
+			for _, pr := range g.Pairs {
+				out = append(out, schedrun.Scenario{Name: g.Point + "~gap/M/" + pr[0] + "+" + pr[1], Mode: explore.Delay, Bound: 0, MaxSteps: 400000, Weight: 3})
 			}
 		}
 		if res.Thorough() {
